@@ -13,8 +13,8 @@ import (
 
 func init() {
 	register(&propDef{
-		ID: "C06", Level: "other", Run: withShared(runC06, share{"C04", runC04, ruleIs("no-offers-outside-action-wait", "opening-seat")}, share{"C10", runC10, ruleIs("enumeration-complete")}, share{"C14", runC14, ruleIs("street-table")}),
-		Explanation: "Extracts the lifecycle machine from the code (handler table from the dispatcher's switch, per-function emit outcomes from path summaries) and decides: the two event symbol tables are total on the declared events and mutually inverse; every string compared with Status.CurrentEvent anywhere in the module is an event symbol; every emit is a tail call; every non-wait handler emits on every path (its only failure exits are the enumerated, separately excluded ones); every wait event has a guarded resuming operation that emits a non-wait successor and operations' guards are pairwise distinct wait symbols; the street switch is exactly preflop→flop→turn→river→completed; Start's four refusing tests dominate the first emit; the settlement result is stored before the terminal event and nothing accepts the terminal event. Does NOT decide termination of the betting loop or absence of panics in handlers.",
+		ID: "C06", Level: "other", Run: withShared(runC06, share{"C04", runC04, ruleIs("no-offers-outside-action-wait", "opening-seat")}, share{"C10", runC10, ruleIs("enumeration-complete")}, share{"C14", runC14, ruleIs("street-table")}, share{"C07", runC07, ruleIs("load-is-identity")}),
+		Explanation: "Extracts the lifecycle machine from the code (handler table from the dispatcher's switch, per-function emit outcomes from path summaries) and decides: the two event symbol tables are total on the declared events and mutually inverse; every string compared with Status.CurrentEvent anywhere in the module is an event symbol; every emit is a tail call; every non-wait handler emits on every path (its only failure exits are the enumerated, separately excluded ones); every wait event has a guarded resuming operation that emits a non-wait successor and operations' guards are pairwise distinct wait symbols; the street switch is exactly preflop→flop→turn→river→completed; Start's four refusing tests dominate the first emit, and the dealer test is effective (nothing stores a possibly-nil typed pointer into the interface field it compares with nil); the settlement result is stored before the terminal event and nothing accepts the terminal event. Does NOT decide termination of the betting loop or absence of panics in handlers.",
 		Trusted:     commonTrusted,
 		Assumptions: []string{"operations are the methods of table.Backend (the repo's own driver-facing interface)", "a handler's `if err != nil` edge is dead when the callee's every return is the nil constant (computed)"},
 		NotCovered:  "bounded number of steps inside a betting round (C05's dynamic part); absence of panics in handlers (e.g. a deck with too few cards)",
@@ -666,9 +666,19 @@ func runC06Start(c *Ctx, ea *engineAnchors, eg *EventGraph, outs []outcome) {
 		c.undecided("start-validation", "Start", "-", "not found")
 		return
 	}
-	s := eg.summ(1)
+	s := eg.summ(2)
 	paths, _ := s.Function(start)
-	loops := s.loops(start)
+	// the loops of Start and of the helpers analysed in place
+	var loops []*Loop
+	seenLoop := map[*Loop]bool{}
+	for _, ps := range paths {
+		for _, e := range ps.Events {
+			if e.Kind == "loop" && e.Loop != nil && !seenLoop[e.Loop] {
+				seenLoop[e.Loop] = true
+				loops = append(loops, e.Loop)
+			}
+		}
+	}
 	nEmit := 0
 	var bad []string
 	tests := map[string]bool{}
@@ -740,7 +750,7 @@ func runC06Start(c *Ctx, ea *engineAnchors, eg *EventGraph, outs []outcome) {
 		if ri.Kind != "slice" || !ri.Full {
 			continue
 		}
-		body, _ := s.LoopBody(start, l)
+		body, _ := s.LoopBody(l.Fn, l)
 		for _, ps := range body {
 			if strings.HasPrefix(ps.End, "exit-return") && len(ps.Ret) == 1 {
 				if _, ok := c.sentinelError(ps.Ret[0]); ok {
